@@ -60,7 +60,7 @@ CLAIMED = {
             "Per case 20 (quick) / 60 (thorough) schedules: every snapshot must be the exact sum over the per-value update counts encoded in its unary total (no torn update; values may repeat, also across threads), contain all updates completed before it and none invoked after it; after join every per-code total equals the real encoded size measured from the writer's output (pins the index->parameter mapping); merged partial statistics (add, +=, +, sum, multiplicities; default family sizes and CodesStats<3,5,2,6,4>) equal the union; best_code has the minimum total and its real cost. Every schedule ends with writes through the wrapper into a full fixed slice and reads from an exhausted strict stream: a failed call must leave count and totals unchanged. A failing schedule is pinned in the replay file.",
             "Trusts shuttle's scheduler and Mutex model; the only lock in the crate is the one replaced through the hook. Sizes for (code, value) pairs with unary parts above 20000 bits are not measured.",
             "DESIGN.md §4 C15"),
-    "C19": ("deterministic configuration replay: the same seeded histories of families C01 C02 C03 C05 C07 C08 C12 C14 (clean arguments) are executed by 6 (quick) / 8 (thorough) builds of the crate (features default/checks/no_copy_impls/both x release/debug-assertions+overflow-checks) and the per-run event-log digests are diffed; exhaustive C19W family for the checks assertion",
+    "C19": ("deterministic configuration replay: the same seeded histories of families C01 C02 C03 C05 C07 C08 C09 C12 C13 C14 C18 (clean arguments) are executed by 6 (quick) / 8 (thorough) builds of the crate (features default/checks/no_copy_impls/both x release/debug-assertions+overflow-checks) and the per-run event-log digests are diffed; exhaustive C19W family for the checks assertion",
             "exploration",
             "Any difference between builds in the digest of the complete event log (returns, bytes, lengths, positions, Ok/Err) of any run, or a panic in one build only, is a violation, minimised on the pair of builds. C19W enumerates every (endianness, word, width n, dirty bit b>=n) and clean arguments: write_bits must panic iff checks is on and the argument is dirty.",
             "Relies on the simulator being deterministic (selftest determinism); clean arguments only; u8 readers without tables (recorded known finding).",
